@@ -46,3 +46,29 @@ Definition corr_c04 (c : dcase) : bool :=
                                  (List.length (filter (call_sim x) (dc_trace c)))) tr
   | None => false
   end.
+
+(** ** C03 on a pair (keep-going run, scripted run) of the same type and payload *)
+Definition leading_trues (l : list bool) : N :=
+  N.of_nat (List.length ((fix go (l : list bool) : list bool :=
+                            match l with true :: r => true :: go r | _ => [] end) l)).
+
+Definition mon_c03 (p : dcase * dcase) : bool :=
+  let (kg, sc) := p in
+  let k := leading_trues (dc_script sc) in
+  let n := N.of_nat (List.length (dc_trace kg)) in
+  (* everything up to and including call k is identical to the keep-going run *)
+  list_eqb call_sim (firstn (S (N.to_nat k)) (dc_trace kg)) (firstn (S (N.to_nat k)) (dc_trace sc))
+  && (if (n <=? k)%N then res_sim (dc_res kg) (dc_res sc) && Nat.eqb (List.length (dc_trace kg)) (List.length (dc_trace sc)) else true)
+  (* after the stop only hand-overs *)
+  && (if negb (dc_default sc) && N.eqb (N.of_nat (List.length (dc_script sc))) k
+      then c03_tail_ok k (dc_res sc) (dc_trace sc) else true).
+
+Definition corr_c03 (p : dcase * dcase) : bool := corr_full (fst p) && corr_full (snd p).
+
+(** ** C12 *)
+Definition mon_c12 (c : dcase) : bool := match dc_res c with RPanic _ => false | _ => true end.
+Definition corr_c12 (c : dcase) : bool :=
+  match model_run c with
+  | Some (r, _) => N.eqb (res_class r) (res_class (dc_res c))
+  | None => false
+  end.
